@@ -626,7 +626,7 @@ func namedIs(t types.Type, pkgPath, typeName string) bool {
 	if !ok {
 		return false
 	}
-	if n.Obj().Name() != typeName {
+	if canonTypeName(n) != typeName {
 		return false
 	}
 	if n.Obj().Pkg() == nil {
